@@ -239,7 +239,7 @@ theorem blockHead_eq (oldStyle : Bool) : blockHead (α := α) oldStyle =
       | _ => pure none := rfl
 
 theorem withRecover_toks {β : Type} (f : P α (Option β)) (s : BP α) : (withRecover f s).2.toks = (f s).2.toks := by
-  rw [withRecover_run]; split <;> rfl
+  rw [withRecover_run_ext]; split <;> rfl
 
 /-- the single-line attempt keeps the token list, and returns a section event, or the metadata
     event that `metadata_entry` returned -/
@@ -258,7 +258,7 @@ theorem blockHead_fact (oldStyle : Bool) (s : BP α) :
     have hi := metadataEntry_indA.all s
     refine ⟨?_, ?_, ?_⟩
     · rw [withRecover_toks, P_bind_run, hf.1]; exact hi.toks
-    · rw [withRecover_run]
+    · rw [withRecover_run_ext]
       split
       · show ((metadataEntry >>= metaFilter oldStyle) s).2.cs = s.cs
         rw [P_bind_run, hf.1]; exact hi.cs
